@@ -1048,7 +1048,10 @@ func TestVerifC14(t *testing.T) {
 			}
 			ok = orig == rewr
 			if !ok {
+				// the pinned literal has a precision of 1e-6 day (±43 ms) and the original reads its
+				// own clock a moment later: near a second boundary the two may differ - move away from it
 				rep.Count("meaning:retry")
+				time.Sleep(170 * time.Millisecond)
 			}
 		}
 		rep.Count("meaning:original-vs-rewritten")
